@@ -224,14 +224,22 @@ fn case_sets(rng: &mut Rng, tier: &str) -> Case {
     };
     let log_plain = RefCell::new(vec![]);
     let log_cached = RefCell::new(vec![]);
+    // the combiners through their other doors: by name (any casing) and Default — they must be the same
+    // combiners as the enum variants used on the cached path below
+    let by_name = |name: &str| StandardCombiner::try_from(name).expect("documented combiner name");
+    let (c_avg, c_max, c_bma) = match rng.below(3) {
+        0 => (StandardCombiner::default(), by_name("funSimMax"), by_name("BMA")),
+        1 => (by_name("funsimavg"), by_name("FUNSIMMAX"), by_name("bma")),
+        _ => (by_name("funSimAvg"), StandardCombiner::FunSimMax, by_name("Bma")),
+    };
     let plain: Vec<V> = queries
         .iter()
         .map(|(a, b)| {
             let (sa, sb) = (mk(a), mk(b));
             // through HpoSet::similarity (a fresh GroupSimilarity per call)
-            let r1 = res_bits(crate::catch(std::panic::AssertUnwindSafe(|| sa.similarity(&sb, TableSim { table: &table, log: &log_plain }, StandardCombiner::FunSimAvg))), false);
-            let r2 = res_bits(crate::catch(std::panic::AssertUnwindSafe(|| sa.similarity(&sb, TableSim { table: &table, log: &log_plain }, StandardCombiner::FunSimMax))), true);
-            let r3 = res_bits(crate::catch(std::panic::AssertUnwindSafe(|| sa.similarity(&sb, TableSim { table: &table, log: &log_plain }, StandardCombiner::Bma))), false);
+            let r1 = res_bits(crate::catch(std::panic::AssertUnwindSafe(|| sa.similarity(&sb, TableSim { table: &table, log: &log_plain }, c_avg))), false);
+            let r2 = res_bits(crate::catch(std::panic::AssertUnwindSafe(|| sa.similarity(&sb, TableSim { table: &table, log: &log_plain }, c_max))), true);
+            let r3 = res_bits(crate::catch(std::panic::AssertUnwindSafe(|| sa.similarity(&sb, TableSim { table: &table, log: &log_plain }, c_bma))), false);
             V::T(vec![r1, r2, r3])
         })
         .collect();
